@@ -131,10 +131,10 @@ class Engine(EngineBase, ExprMixin, CompMixin, CallMixin, FuncMixin, StmtMixin):
                 fin.frame.locals["result"] = res
                 self.excs.append([])
                 for i, cl in enumerate(con.ensures):
-                    self.oblige(fin, "post", f"#{i}", self.spec_bool(cl, fin), descr=f"ensures {cl!r}")
+                    self.oblige(fin, "post", f"#{i}", self.spec_goal(cl, fin), descr=f"ensures {cl!r}")
                 if cls and self.ct.classes[cls].spec.invariant:
                     for i, inv in enumerate(self.ct.classes[cls].spec.invariant):
-                        self.oblige(fin, "clsinv", f"#{i}", self.spec_bool(inv, fin), descr=f"class invariant {inv!r}")
+                        self.oblige(fin, "clsinv", f"#{i}", self.spec_goal(inv, fin), descr=f"class invariant {inv!r}")
                 self.excs.pop()
                 self.frame_obligations(fin, old, con, modnames)
             elif o.kind == "exc":
@@ -150,10 +150,10 @@ class Engine(EngineBase, ExprMixin, CompMixin, CallMixin, FuncMixin, StmtMixin):
                                 descr=f"exception {exc.name} {exc.msg} is not permitted by the contract")
                 else:
                     self.excs.append([])
-                    self.oblige(fin, "raises", f":{matched[0]}", self.spec_bool(matched[1], old_with_pc(old, fin)),
+                    self.oblige(fin, "raises", f":{matched[0]}", self.spec_goal(matched[1], old_with_pc(old, fin)),
                                 descr=f"{exc.name} only when {matched[1]!r}")
                     for i, cl in enumerate(con.ensures_on_raise):
-                        self.oblige(fin, "post-exc", f"#{i}", self.spec_bool(cl, fin), descr=f"on raise: {cl!r}")
+                        self.oblige(fin, "post-exc", f"#{i}", self.spec_goal(cl, fin), descr=f"on raise: {cl!r}")
                     self.excs.pop()
                     self.frame_obligations(fin, old, con, modnames)
             else:
@@ -260,7 +260,7 @@ class Engine(EngineBase, ExprMixin, CompMixin, CallMixin, FuncMixin, StmtMixin):
         ob.result = "discharged" if cover == z3.sat else ("unknown" if cover == z3.unknown else "refuted")
         ob.backend, ob.is_cover = "z3", True
         for i, p in enumerate(lem.prove):
-            self.oblige(st, "lemma", f"#{i}", self.spec_bool(p, st), descr=p)
+            self.oblige(st, "lemma", f"#{i}", self.spec_goal(p, st), descr=p)
         self.excs.pop()
         for o in self.obligations:
             o.nonlinear = lem.nonlinear
